@@ -1325,7 +1325,14 @@ def library_module(dotted):
         m = LibModule("pandas", _pandas_table())
     elif dotted == "re":
         import re
-        m = LibModule("re", {"search": ModelFn("re.search", lambda it, p, s: I.NativeValue.wrap(re.search(p, s)))})
+        def _re(fname):
+            def f(it, *a, **k):
+                if not all(isinstance(x, (str, int)) for x in a) or k:
+                    raise SymError(f"re.{fname} on a non-concrete argument")
+                return I.NativeValue.wrap(getattr(re, fname)(*a))
+            return ModelFn("re." + fname, f)
+        m = LibModule("re", {"search": ModelFn("re.search", lambda it, p, s: I.NativeValue.wrap(re.search(p, s))),
+                             "findall": _re("findall"), "match": _re("match"), "fullmatch": _re("fullmatch"), "split": _re("split"), "sub": _re("sub")})
     else:
         m = I.OpaqueModule(dotted)
     _LIBS[dotted] = m
